@@ -6,60 +6,17 @@
     identity on bit patterns; every NaN is canonicalised to 0x7FF8000000000000. *)
 From Coq Require Import ZArith List Bool Lia Arith.
 From ChibiV Require Import C08.Datum C08.CSem C08.Tables Gen.C08_Tables Gen.C08_Leaf C08.Write C08.Read
-  C08.Model3 C08.Proofs C08.CharProofs C08.CompoundProofs.
+  C08.Model3 C08.FloSpec C08.Proofs C08.CharProofs C08.CompoundProofs.
 Import ListNotations.
 Local Open Scope Z_scope.
 Ltac Zify.zify_post_hook ::= Z.div_mod_to_equations.
 
-(** ** the decimal texts printf emits, as a grammar *)
-Definition dval (ds : list Z) : Z := fold_left dstep ds 0.
-Definition TWO63 : Z := 9223372036854775808.
-Definition TWO64 : Z := 18446744073709551616.
-Definition signbit (b : Z) : bool := TWO63 <=? b.
-Definition finite (b : Z) : Prop := 0 <= b < TWO64 /\ flo_class b = 0.
-
-(** exponent part: (negative?, digits) *)
-Definition exv (ex : option (bool * list Z)) : Z :=
-  match ex with None => 0 | Some (neg, ed) => if neg then - dval ed else dval ed end.
-
-Definition utext (w fr : list Z) (ex : option (bool * list Z)) : list Z :=
-  w ++ match fr with [] => [] | _ => 46 :: fr end
-    ++ match ex with None => [] | Some (neg, ed) => 101 :: (if neg then 45 else 43) :: ed end.
-
-Definition stext (neg : bool) (u : list Z) : list Z := if neg then 45 :: u else u.
-
-Definition shape_ok (w fr : list Z) (ex : option (bool * list Z)) : Prop :=
-  w <> [] /\ Forall digit w /\ Forall digit fr /\ (length w + length fr <= 40)%nat /\
-  match ex with None => True | Some (_, ed) => ed <> [] /\ Forall digit ed /\ (length ed <= 4)%nat end.
-
-(** mantissa * 10^k denote the same number *)
-Definition deq (m1 k1 m2 k2 : Z) : Prop := m1 * 10 ^ Z.max 0 (k1 - k2) = m2 * 10 ^ Z.max 0 (k2 - k1).
-
-(** ** hypotheses about libc (recorded by the check as assumptions and tested on every generated
-    double by the extracted driver: request "flohyp") *)
-Record libc_flonum (fmt_g : Z -> Z -> list Z) (scan_g : list Z -> option Z) (strtod : list Z -> Z)
-                   (fmt_0f : Z -> list Z) (i2d : Z -> Z) : Prop := {
-  (* printf "%.{15,16,17}lg" of a finite double is total and has the shape [-]digits[.digits][e(+|-)digits],
-     '-' exactly when the sign bit is set; its integer part converts to double and prints back with
-     "%.0f" unchanged *)
-  lf_shape : forall p b, p = 15 \/ p = 16 \/ p = 17 -> finite b ->
-    exists w fr ex, shape_ok w fr ex /\ fmt_g p b = stext (signbit b) (utext w fr ex) /\
-                    fmt_0f (i2d (dval w)) = w;
-  (* sscanf "%lg" succeeds on such a text and agrees with strtod *)
-  lf_scan : forall neg w fr ex, shape_ok w fr ex ->
-    scan_g (stext neg (utext w fr ex)) = Some (strtod (stext neg (utext w fr ex)));
-  (* strtod of "-"u is the negation of strtod u; strtod of an unsigned text has the sign bit clear *)
-  lf_sign : forall w fr ex, shape_ok w fr ex -> strtod (45 :: utext w fr ex) = flip_sign (strtod (utext w fr ex));
-  lf_pos : forall w fr ex, shape_ok w fr ex -> 0 <= strtod (utext w fr ex) < TWO63;
-  (* strtod is a function of the number denoted: digits"e"k and w.fr e(+|-)dd with the same value *)
-  lf_val : forall ds k w fr ex, ds <> [] -> Forall digit ds -> (length ds <= 41)%nat -> shape_ok w fr ex ->
-    deq (dval ds) k (dval (w ++ fr)) (exv ex - Z.of_nat (length fr)) ->
-    strtod (ds ++ 101 :: write_int k) = strtod (utext w fr ex);
-  (* 17 significant digits determine a double: strtod (printf "%.17lg" x) = x *)
-  lf_rt17 : forall b, finite b -> strtod (fmt_g 17 b) = b
-}.
-
 (** ** tokenizer lemmas *)
+Lemma dval_dstep : forall ds, dval ds = fold_left dstep ds 0.
+Proof. reflexivity. Qed.
+Lemma is_digit_char_digit : forall d, is_digit_char d <-> digit d.
+Proof. intros d. unfold is_digit_char, digit. tauto. Qed.
+
 Lemma val_app : forall a b, dval (a ++ b) = fold_left dstep b (dval a).
 Proof. intros a b. unfold dval. apply fold_left_app. Qed.
 
@@ -78,7 +35,7 @@ Proof.
 Qed.
 
 Lemma val_bound : forall ds, Forall digit ds -> 0 <= dval ds < 10 ^ Z.of_nat (length ds).
-Proof. intros ds Hd. pose proof (fold_dstep_bound ds 0 Hd ltac:(lia)). unfold dval. lia. Qed.
+Proof. intros ds Hd. pose proof (fold_dstep_bound ds 0 Hd ltac:(lia)). rewrite dval_dstep. lia. Qed.
 
 Definition stops (c : Z) : bool := negb (isxdigit c && (0 <=? digit_value c) && (digit_value c <? 10)).
 
@@ -162,17 +119,13 @@ Section Tok.
     assert (Hmax : (dval (d0 :: ed') >? MAX_FIXNUM) = false) by (unfold MAX_FIXNUM; destruct (Z.gtb_spec (dval (d0 :: ed')) 4611686018427387903); [lia|reflexivity]).
     destruct neg.
     - cbn [app]. change (read_digits 10 (d0 :: ed' ++ rest) 0 false) with (read_digits 10 ((d0 :: ed') ++ rest) 0 false).
-      rewrite read_digits_app by assumption. fold (dval (d0 :: ed')). rewrite Hmax, Hr. reflexivity.
+      rewrite read_digits_app by assumption. rewrite <- (dval_dstep (d0 :: ed')). rewrite Hmax, Hr. reflexivity.
     - cbn [app].
       replace (match d0 :: ed' ++ rest with 45 :: t => (true, t) | 43 :: t => (false, t) | _ => (false, d0 :: ed' ++ rest) end)
         with (false, d0 :: ed' ++ rest) by (clear - Hd0; digit_split Hd0; reflexivity).
       change (read_digits 10 (d0 :: ed' ++ rest) 0 false) with (read_digits 10 ((d0 :: ed') ++ rest) 0 false).
-      rewrite read_digits_app by assumption. fold (dval (d0 :: ed')). rewrite Hmax, Hr. reflexivity.
+      rewrite read_digits_app by assumption. rewrite <- (dval_dstep (d0 :: ed')). rewrite Hmax, Hr. reflexivity.
   Qed.
-
-  (** the unsigned text of printf, ".0" appended when it has neither '.' nor 'e' (sexp.c:2270-2293) *)
-  Definition patched (fr : list Z) (ex : option (bool * list Z)) : bool :=
-    match fr, ex with [], None => true | _, _ => false end.
 
   Lemma read_unsigned : forall w fr ex rest, shape_ok w fr ex -> at_delim rest = true ->
     read_number10 D (utext w fr ex ++ (if patched fr ex then [46; 48] else []) ++ rest) =
@@ -326,7 +279,6 @@ Section Flo.
       rewrite rsl_plain by assumption; reflexivity.
   Qed.
 
-  Definition flo_canon (b : Z) : Z := if flo_class b =? 3 then A_NAN else b.
 
   Theorem flonum_roundtrip_given_ok : forall b f rest, 0 <= b < TWO64 -> at_delim rest = true ->
     read_raw D (S f) (write_flo fmt_g scan_g b ++ rest) = Ok (TDatum (Flo (flo_canon b))) rest.
